@@ -194,6 +194,18 @@ func (graphScen) Gen(r *Rng, cfg GenConfig) any {
 		t := Pick(r, c.Prog.Tasks)
 		c.Fail = []string{fmt.Sprintf("%s_%d", t.Name, r.Intn(t.NCmd))}
 	}
+	if r.Chance(1, 20) && reasonFree(c) {
+		// a file dependency whose path is spelled exactly like a task this task also depends on (make style:
+		// the generating task is named after its output), listed before the task dependency
+		for ti := range c.Prog.Tasks {
+			t := &c.Prog.Tasks[ti]
+			if len(t.Deps) > 0 && t.Deps[0].Kind == "task" {
+				t.Deps = append([]Dep{{"file", t.Deps[0].Value}}, t.Deps...)
+				c.Disk[t.Deps[0].Value] = "1"
+				break
+			}
+		}
+	}
 	if r.Chance(1, 25) && reasonFree(c) {
 		// the operating system cannot start one command (once, or every time): a task gets 2-3 commands for this
 		ti := r.Intn(len(c.Prog.Tasks))
@@ -352,6 +364,7 @@ func (graphScen) Exec(w *World, cc any, prop string) *Result {
 		}
 		var obs *Obs
 		if rf := c.runnerFault(); rf != nil && reason == "" && !c.ViaClean && w.Level != "L3" {
+			c.JSON = false // level L1 prints no report
 			obs = w.InvokeRunner(c.Request, w.BaseEnv(), rf, c.Sched, run)
 			for _, fd := range obs.Fired {
 				res.count("fault_fired:" + fd)
